@@ -233,11 +233,11 @@ def mutate_text(g, b):
         k = r.randrange(10)
         ls = b.split(b'\n')
         if k == 9:
-            cand = [i for i, l in enumerate(ls) if l.strip(b' \t') == b'---']
+            cand = [i for i, l in enumerate(ls) if l.strip(b' ') == b'---']
             if not cand:
                 continue
             i = r.choice(cand)
-            new = r.choice([b'--- ', b' ---', b'---\t']) if ls[i] == b'---' else b'---'
+            new = r.choice([b'--- ', b' ---', b'---  ']) if ls[i] == b'---' else b'---'
             return b'\n'.join(ls[:i] + [new] + ls[i + 1:]), 'pad-terminator-line'
 
         if k == 0:
